@@ -164,6 +164,21 @@ def families(env):
     F["str-concat-replace"] = term_fam(sl, lambda a, b: mgr.StrConcat(mgr.StrReplace(a, sl[2], sl[3]), b),
                                        lambda t, i: mgr.StrSubstr(t, one, mgr.StrLength(t)),
                                        lambda t: mgr.Equals(t, sl[1]))
+    # only string operators between two levels (the DAG printer must name their results too)
+    F["str-ops-only"] = term_fam(sl, lambda a, b: mgr.StrReplace(a, b, sl[2]),
+                                 lambda t, i: mgr.StrSubstr(t, one, mgr.StrLength(t)),
+                                 lambda t: mgr.StrContains(t, sl[1]))
+    # a chain of bit-vector ITEs whose every level is also observed by a bit-vector operator
+    def bv_ite_observed(n, pattern):
+        t = vl[0]
+        obs = []
+        for i in range(n):
+            t = mgr.Ite(bl[i % 5], t, vl[1 + i % 3]) if pattern != "fib" else mgr.Ite(bl[i % 5], vl[1 + i % 3], t)
+            if pattern == "full":
+                t = mgr.Ite(bl[(i + 1) % 5], t, t) if False else t
+            obs.append(mgr.BVULT(mgr.BVNot(t), vl[4]))
+        return mgr.And(obs)
+    F["bv-ite-observed"] = bv_ite_observed
     # mixed Int/Real with casts and constants on the way (x + 0, x * 1 are folded by the simplifier)
     #  - an ITE between two levels, so that the folded result never nests Plus directly in Plus)
     F["toreal-consts"] = term_fam(il, lambda a, b: mgr.Ite(bl[0], mgr.Times(a, one), mgr.Minus(b, mgr.Int(0))),
@@ -241,7 +256,15 @@ K_BUDGET = 6000
 DOUBLING = 2.6
 
 
-FAMILY_SKIP = {"and-direct": {"simplify", "propagate-toplevel"}, "or-direct": {"simplify", "propagate-toplevel"}}
+# sharing depth for families whose tree expansion has branching factor 3 (an operation that follows the tree must
+# still fit in memory long enough to be reported)
+FAMILY_N = {"str-ops-only": 6}
+OUTPUT_PER_NODE = 4000      # characters of SMT-LIB text per distinct node that DAG printing may produce
+
+FAMILY_SKIP = {"and-direct": {"simplify", "propagate-toplevel"}, "or-direct": {"simplify", "propagate-toplevel"},
+               # one flat conjunction of n observations: simplify / nnf / ... rebuild an n-ary And per call (linear),
+               # the interesting operation is the construction
+               "bv-ite-observed": set()}
 
 
 def check_family(run, fam, pattern, n, ops_subset=None):
@@ -266,7 +289,14 @@ def check_family(run, fam, pattern, n, ops_subset=None):
                 if (ops_subset and name not in ops_subset) or name in FAMILY_SKIP.get(fam, ()):
                     continue
                 try:
-                    w, _ = measure(lambda: op(f), K_BUDGET * nodes + 50000)
+                    w, out_ = measure(lambda: op(f), K_BUDGET * nodes + 50000)
+                    if isinstance(out_, str) and len(out_) > OUTPUT_PER_NODE * nodes + 100000:
+                        run.fail({"subcheck": "work:output-size", "operation": name, "family": fam, "pattern": pattern},
+                                 {"family": fam, "pattern": pattern, "n": size, "operation": name},
+                                 "%s on %s/%s (%d distinct nodes) wrote %d characters: the text follows the tree, not the DAG" % (
+                                     name, fam, pattern, nodes, len(out_)))
+                        results[(name, size)] = None
+                        continue
                 except Budget:
                     run.fail({"subcheck": "work:budget", "operation": name, "family": fam, "pattern": pattern},
                              {"family": fam, "pattern": pattern, "n": size, "operation": name},
@@ -345,7 +375,7 @@ def job(items):
 FAMS = ["and", "or", "implies", "iff", "not-and", "ite-bool-cond", "ite-bool-then", "ite-bool-else", "plus-minus",
         "times-ite", "ite-int-then", "ite-int-else", "bvadd", "bvxor-neg", "bvmul-lshr", "bv-ite-then", "bv-ite-both", "bv-ite-direct", "bv-ite-tower", "int-ite-tower",
         "bvextract-concat", "store-select", "times-div", "select-const-store", "uf-apply", "str-concat-replace",
-        "toreal-consts", "bv-rot-ext-comp", "and-direct", "or-direct", "div-by-zero"]
+        "toreal-consts", "bv-rot-ext-comp", "and-direct", "or-direct", "div-by-zero", "str-ops-only", "bv-ite-observed"]
 
 
 def main():
@@ -360,7 +390,7 @@ def main():
     items = []
     for fam in FAMS:
         for pattern in ("full", "fib"):
-            items.append(("share", fam, pattern, n))
+            items.append(("share", fam, pattern, FAMILY_N.get(fam, n)))
         items.append(("share", fam, "chain", 400 if thorough else 200))
     deep_fams = FAMS if thorough else ["and", "implies", "ite-bool-then", "plus-minus", "ite-int-then", "bvadd",
                                        "bv-ite-then", "bv-ite-direct", "store-select", "bvxor-neg", "iff",
